@@ -173,7 +173,7 @@ func doBind(sc *Collection, originalInvokeF *provider, originalInitF *provider, 
 				if rm, found := fm.downRmap[tc]; found {
 					tc = rm
 				}
-				if downVmap[tc] >= 0 {
+				if slot, ok := downVmap[tc]; ok && slot >= 0 {
 					later = append(later, tc)
 				}
 			}
